@@ -112,3 +112,28 @@ def run(ctx, rep, tier):
     rep.check("self.match_contents.attach(action)" in asrc and "super().attach(action)" in asrc, "C16.c", "WaitMatch.attach", "forwards to the wrapped match and records its own copy", "WaitMatch.attach changed")
     init = ast.unparse(model.func("WaitMatch.__init__"))
     rep.check("self.match_contents = sub_match" in init, "C16.c", "WaitMatch.__init__", "wraps the sub-match", "WaitMatch constructor changed")
+
+
+def _shared(ctx, rep, tier):
+    from ..core import Report
+    from . import c05, c09
+    rep.rule("C16.d", "passes that later rewrite the wait's restart transitions keep them: the fall-through optimiser translates Else by the right states (C05.b) and joining a "
+                      "wait after another statement widens / redirects the error-marked Else for every end state (C09.a)")
+    n = 0
+    for mod, rules in ((c05, ("C05.b",)), (c09, ("C09.a",))):
+        sub = Report(mod.__name__[-3:].upper())
+        mod.run(ctx, sub, tier)
+        for v in sub.violations:
+            if v.rule in rules:
+                rep.bad("C16.d", v.function, v.construct, v.message, v.extra, v.line)
+                n += 1
+    if not n:
+        rep.ok("C16.d", "DfaCompileCtx._optimize_shortcircuit_fallthroughs / DFA.append_after", "shared conditions hold")
+
+
+_run0 = run
+
+
+def run(ctx, rep, tier):
+    _run0(ctx, rep, tier)
+    _shared(ctx, rep, tier)
